@@ -191,7 +191,7 @@ pub fn profile(check: &str) -> Profile {
         "C19" => Profile {
             owner: "C19",
             own: vec!["C19:", "C02:fields", "C03:"],
-            w: [30, 0, 10, 5, 3, 6, 1, 0, 0, 0, 4, 0, 0, 0, 0, 0, 0, 4, 1, 0],
+            w: [30, 0, 10, 5, 3, 6, 2, 0, 0, 0, 4, 0, 0, 0, 2, 2, 2, 4, 1, 0],
             burst: (1, 3),
             nontrivial_any: vec!["send_after_restart", "wrong_key_start_refused_other-key", "ciphertext_corrupted"],
             required: vec!["restart_shutdown", "wrong_key_start_refused_other-key", "ciphertext_corrupted", "cleartext_scan_files"],
@@ -395,6 +395,7 @@ pub async fn run_history(ctx: &Ctx, prof: &Profile, hseed: u64, cache: CacheMode
     if w.cfg.encryption {
         w.stream_name = format!("vstream-{:08x}", hseed & 0xffff_ffff);
         w.topic_name = format!("vtopic-{:08x}", hseed & 0xffff_ffff);
+        w.named_ids = hseed % 2 == 0;
     }
     let nops = rng.range(prof.ops.0, prof.ops.1);
     let res: R<()> = async {
@@ -439,6 +440,11 @@ pub async fn replay_ops(hist: u64, cfg: StorageCfg, cache: CacheMode, tcfg: Topi
     let mut w = World::new(hist, cfg, cache, tcfg, dir);
     w.deep = deep;
     w.sibling = sibling;
+    if w.cfg.encryption {
+        w.stream_name = format!("vstream-{:08x}", hist & 0xffff_ffff);
+        w.topic_name = format!("vtopic-{:08x}", hist & 0xffff_ffff);
+        w.named_ids = hist % 2 == 0;
+    }
     let res: R<()> = async {
         w.boot().await?;
         for op in ops {
